@@ -577,7 +577,8 @@ func stepApply(o *Out, c *typCtx, up *merge.Updater, ig ignoreCfg, st *updState,
 		pre := copyManaged(st.managers)
 		newObj, managers, err := up.Apply(st.live, tv, ver, st.managers, mgr, force)
 		checkSnapshot(o, op, before, st, tv)
-		if up2 := ig.equivalentFilterUpdater(noop, st.conv); up2 != nil {
+		if up2 := ig.equivalentFilterUpdater(noop, st.conv); up2 != nil && orderDependentVersions(st.managers, mgr, ver) < 2 {
+			// (under finding D10 two separate calls may legitimately differ: not compared)
 			o2, m2, e2 := up2.Apply(st.live, tv, ver, st.managers, mgr, force)
 			same := (e2 == nil) == (err == nil) && (o2 == nil) == (newObj == nil)
 			if same && err == nil {
